@@ -1830,8 +1830,13 @@ func c04Exec(r *sim.Run, sci interface{}) {
 				return
 			}
 			noServer = true
-			if !op.Mirror && (status != http.StatusServiceUnavailable || result == "") {
-				r.Violate("C04.other", "request %s found no server but the outcome is result %q status %d (expected a failure result with 503)", st.name, result, status)
+			// the statement says "failed", it names no status: any error status with a
+			// failure result qualifies (503 today; a change to 502 was a false alarm of the
+			// earlier exact comparison, DESIGN §16)
+			if !op.Mirror && (status < 400 || result == "") {
+				r.Violate("C04.no-server-not-failed", "request %s found no server but the outcome is result %q status %d (expected a failure result with an error status)", st.name, result, status)
+			} else if !op.Mirror && status != http.StatusServiceUnavailable {
+				r.Probe("c04.no_server.failed_with_other_status")
 			}
 		}
 	}
